@@ -325,7 +325,11 @@ void execute(const sim::Plan &plan) {
     }, (int)i);
   }
   // quiescence: the peer drains (and nothing else happens) until no byte moves any more
-  for (int k = 0; k < 400; ++k) {
+  // (a small SO_SNDBUF lets only a few KiB move per step, so the number of steps follows the volume to be moved)
+  long planned = 0;
+  for (const sim::Op &op : plan.ops) if (op.kind == "send" || op.kind == "presend") planned += std::max(1L, std::min(4000000L, op.arg(1)));
+  long drain_steps = 400 + std::min(30000L, planned / 1024);
+  for (long k = 0; k < drain_steps; ++k) {
     t += 1000000;
     tl.at(t, [] { sim::fault_scope(0, 0); peer_read(1 << 30); });
   }
